@@ -57,10 +57,8 @@ TRUSTED = [
 ASSUMPTIONS = ["0 <= min_limit <= max_limit <= usize::MAX = 2^64-1 (AimdController::new / Vegas::new panic when "
                "min > max); limits up to usize::MAX are inside the algorithm-level statements: the model saturates "
                "at usize::MAX exactly where the code does (Vegas::adjust_limit since /repo 96e4b2b)",
-               "service level: AdaptiveService::new panics inside tokio's Semaphore::new for an initial limit above "
-               "usize::MAX >> 3 (and call()/completion in Semaphore::add_permits when the permits ever added exceed "
-               "it): a construction-time configuration error, excluded from the service-level quantifier -- "
-               "service scripts use limits far below 2^61"]
+               "service level: since /repo 3fb3ccc the service's tokio Semaphore mirror saturates at MAX_PERMITS "
+               "(usize::MAX >> 3) instead of panicking; limits up to usize::MAX are driven through the service"]
 U64 = (1 << 64) - 1
 
 S, F, N, LIM, RESET = 0, 1, 2, 3, 4      # RESET: AimdController::reset(), kind 1 only
